@@ -54,6 +54,7 @@ func merge(ctx context.Context, cs ...chan interface{}) chan interface{} {
 	// Start an output goroutine for each input channel in cs.  output
 	// copies values from c to out until c is closed, then calls wg.Done.
 	output := func(c <-chan interface{}) {
+		defer wg.Done()
 		for n := range c {
 			select {
 			case <-ctx.Done():
@@ -61,7 +62,6 @@ func merge(ctx context.Context, cs ...chan interface{}) chan interface{} {
 			case out <- n:
 			}
 		}
-		wg.Done()
 	}
 	wg.Add(len(cs))
 	for _, c := range cs {
@@ -84,6 +84,7 @@ func mergeError(ctx context.Context, cs ...chan error) chan error {
 	// Start an output goroutine for each input channel in cs.  output
 	// copies values from c to out until c is closed, then calls wg.Done.
 	output := func(c <-chan error) {
+		defer wg.Done()
 		for n := range c {
 			select {
 			case <-ctx.Done():
@@ -91,7 +92,6 @@ func mergeError(ctx context.Context, cs ...chan error) chan error {
 			case out <- n:
 			}
 		}
-		wg.Done()
 	}
 	wg.Add(len(cs))
 	for _, c := range cs {
